@@ -34,11 +34,13 @@ package keygen
 //@   props C06 C09 C05
 //@   requires dpv != nil && !isnil(m) && h1 != nil && h2 != nil && n != nil
 //@   invokes onDone
+//@   async-invokes
 //@ func (*DlnProofVerifier).VerifyDLNProof2
 //@   trusted as VerifyDLNProof1
 //@   props C06 C09 C05
 //@   requires dpv != nil && !isnil(m) && h1 != nil && h2 != nil && n != nil
 //@   invokes onDone
+//@   async-invokes
 
 // ----- message decoders -----
 //@ func (*KGRound1Message).UnmarshalCommitment
